@@ -573,13 +573,6 @@ func TestVerifC19(t *testing.T) {
 	dir := t.TempDir()
 	config := &Config{Bind: "127.0.0.1", HttpPort: 0, HttpsPort: 0, AlternateConfigDir: dir}
 	router := NewRouter(config.StatePath())
-	server := NewServer(config, router)
-	if err := server.Start(); err != nil {
-		t.Fatalf("verif: server start: %v", err)
-	}
-	defer server.Stop()
-	httpAddr := fmt.Sprintf("127.0.0.1:%d", server.HttpPort())
-	httpsAddr := fmt.Sprintf("127.0.0.1:%d", server.HttpsPort())
 
 	targets := map[string]string{}
 	for _, sv := range vList(cases[0]["services"]) {
@@ -632,6 +625,27 @@ func TestVerifC19(t *testing.T) {
 			}
 		}
 	}
+
+	if vBool(cases[0]["restored"]) {
+		// the whole run goes through a RESTARTED proxy: a new router restored from the state file the deploys wrote
+		restored := NewRouter(config.StatePath())
+		if err := restored.RestoreLastSavedState(); err != nil {
+			t.Fatalf("verif: restore: %v", err)
+		}
+		for name := range targets {
+			if sv := router.serviceForName(name); sv != nil {
+				sv.Dispose()
+			}
+		}
+		router = restored
+	}
+	server := NewServer(config, router)
+	if err := server.Start(); err != nil {
+		t.Fatalf("verif: server start: %v", err)
+	}
+	defer server.Stop()
+	httpAddr := fmt.Sprintf("127.0.0.1:%d", server.HttpPort())
+	httpsAddr := fmt.Sprintf("127.0.0.1:%d", server.HttpsPort())
 
 	results := make([]map[string]any, len(cases))
 	results[0] = map[string]any{"i": 0, "kind": "config", "targets": targets, "http_port": config.HttpPort, "https_port": config.HttpsPort}
